@@ -312,7 +312,7 @@ fn plan_small(rng: &mut Rng) -> PlanResult {
         protos.push(Proto::json(rtok(rng), ropt(rng), rng.bool()));
     }
     rng.shuffle(&mut protos);
-    let vocab = *rng.pick(&[2usize, 5, 20, 100]);
+    let vocab = *rng.pick(&[2usize, 5, 20, 100, 3000]);
     let presence: Vec<u64> = protos.iter().map(|_| *rng.pick(&[1u64, 2, 4, 4])).collect();
     let mut b = SegBuilder::create(protos, budget(rng))?;
     for _ in 0..n {
@@ -390,11 +390,15 @@ fn plan_boundary(rng: &mut Rng) -> PlanResult {
         for j in 0..m {
             let l = *rng.pick(&targets);
             let heavy = rng.chance(1, 12);
+            // term-frequency bit widths inside full blocks
+            let tf_bits = if rng.chance(1, 3) { rng.below(if l <= 300 { 12 } else { 7 }) } else { 0 };
             for d in choose_docs(rng, n, l) {
                 let tf = if f == 2 {
                     1
                 } else if heavy && rng.chance(1, 6) {
                     *rng.pick(&[127u32, 128, 129, 130])
+                } else if tf_bits > 0 && rng.chance(1, 3) {
+                    1 + rng.below(1u64 << tf_bits) as u32
                 } else {
                     *rng.pick(&[1u32, 1, 1, 1, 2, 3])
                 };
@@ -477,11 +481,12 @@ fn plan_boundary(rng: &mut Rng) -> PlanResult {
 
 /// large segments: posting lists of 20 000+, sparse lists whose doc-id gaps need 1..~20 bits
 fn plan_big(rng: &mut Rng, thorough: bool) -> PlanResult {
-    let n: u32 = match rng.below(if thorough { 12 } else { 10 }) {
-        0 | 1 => rng.range(140_000, 300_000) as u32,
-        2 => rng.range(60_000, 140_000) as u32,
-        10 => rng.range(600_000, 1_100_000) as u32,
-        11 => rng.range(1_100_000, 2_200_000) as u32,
+    let n: u32 = match rng.below(if thorough { 24 } else { 20 }) {
+        0..=3 => rng.range(140_000, 300_000) as u32,
+        4 | 5 => rng.range(60_000, 140_000) as u32,
+        6 | 7 => rng.range(530_000, 1_100_000) as u32,
+        20 | 21 => rng.range(1_100_000, 2_200_000) as u32,
+        22 => rng.range(2_200_000, 4_300_000) as u32,
         _ => rng.range(20_500, 60_000) as u32,
     };
     let tok = *rng.pick(&[Tok::Default, Tok::White]);
@@ -877,8 +882,8 @@ fn jsonlong_case(_case: u64, rng: &mut Rng, rep: &mut Report) {
 fn main() {
     let ctx = Ctx::from_env("C07", "exploration");
     let thorough = !ctx.quick();
-    let n_main = ctx.scale(150, 5600) as u64;
-    let n_long = ctx.scale(6, 60) as u64;
+    let n_main = ctx.scale(240, 5600) as u64;
+    let n_long = ctx.scale(8, 64) as u64;
     let mut rep = run_cases(&ctx, "main", n_main, main_case(thorough));
     rep.merge(run_cases(&ctx, "jsonlong", n_long, jsonlong_case));
     simple_finish(
